@@ -89,6 +89,11 @@ class Namespace:
         self.cache = {}
         self.names = {}
 
+    def fresh(self):
+        """a number not used by any other class of this namespace (names are assigned AFTER the nested classes exist)"""
+        self.nnames = getattr(self, "nnames", 0) + 1
+        return self.nnames
+
     def fname(self, i):
         return f"f{i}"
 
@@ -98,23 +103,23 @@ class Namespace:
             return self.cache[k]
         xo = self.xo
         kind = tx["k"]
-        n = len(self.cache)
         if kind == "sc":
             c = getattr(xo, tx["np"])
         elif kind == "str":
             c = xo.String
         elif kind == "struct":
             data = {self.fname(i): self.cls(f) for i, f in enumerate(tx["f"])}
-            c = type(xo.Struct)(f"{self.prefix}S{n}", (xo.Struct,), data)
+            c = type(xo.Struct)(f"{self.prefix}S{self.fresh()}", (xo.Struct,), data)
         elif kind == "arr":
             it = self.cls(tx["it"])
             spec = tuple(slice(None if d < 0 else d, o) for d, o in zip(tx["sh"], tx["ord"]))
             base = it[spec]
-            c = type(base)(f"{self.prefix}A{n}", (base,), {})
+            c = type(base)(f"{self.prefix}A{self.fresh()}", (base,), {})
         elif kind == "ref":
             c = xo.Ref[self.cls(tx["to"])]
         elif kind == "uref":
-            c = type(xo.UnionRef)(f"{self.prefix}U{n}", (xo.UnionRef,), {"_reftypes": [self.cls(t) for t in tx["of"]]})
+            members = [self.cls(t) for t in tx["of"]]
+            c = type(xo.UnionRef)(f"{self.prefix}U{self.fresh()}", (xo.UnionRef,), {"_reftypes": members})
         else:
             raise C.MachineryError(f"bad TX {tx}")
         self.cache[k] = c
@@ -124,7 +129,8 @@ class Namespace:
 # ----------------------------------------------------------------------------- values
 INT_RANGE = {"Int8": (-2**7, 2**7 - 1), "UInt8": (0, 2**8 - 1), "Int16": (-2**15, 2**15 - 1), "UInt16": (0, 2**16 - 1),
              "Int32": (-2**31, 2**31 - 1), "UInt32": (0, 2**32 - 1), "Int64": (-2**63, 2**63 - 1), "UInt64": (0, 2**64 - 1)}
-STRINGS = ["", "a", "ab", "xyz", "héé", "日本", "1234567", "12345678", "éééé", "abcdefghijklmnop", "q" * 15, "\U0001F600x"]
+STRINGS = ["", "a", "ab", "xyz", "héé", "日本", "1234567", "12345678", "éééé", "abcdefghijklmnop", "q" * 15, "\U0001F600x",
+           "éèêëà", "日本語日本語日", "ß" * 9, "\U0001F600" * 3]
 
 
 def gen_scalar(kind, rng):
@@ -162,35 +168,39 @@ class Gen:
     """generates (input-form value, python constructor data) for a TX.
     refchoice(tx_ref, b) -> ("null",) | ("alias", at, tid, handle) | ("new", tid) | ("foreign", tid, (b2, a2), handle)"""
 
-    def __init__(self, ns, rng, refchoice=None, maxdim=3, np_forms=True, allow_uninit=False):
+    def __init__(self, ns, rng, refchoice=None, maxdim=3, np_forms=True, allow_uninit=False, mindim=0):
+        self.mindim = mindim
         self.ns, self.rng, self.refchoice, self.maxdim, self.np_forms = ns, rng, refchoice, maxdim, np_forms
+        self.shorter_strings = True
 
     def shape(self, tx):
-        return [d if d >= 0 else self.rng.choice([0, 1, 1, 2, 2, 3][: self.maxdim + 3]) for d in tx["sh"]]
+        return [d if d >= 0 else max(self.mindim, self.rng.choice([0, 1, 1, 2, 2, 3][: self.maxdim + 3])) for d in tx["sh"]]
 
-    def value(self, tx, b=None, like=None):
+    def value(self, tx, b=None, like=None, _top=True, _inarr=False):
         """like: an existing input-form value whose every dynamic size must be kept (fitting assignment)"""
         rng, k = self.rng, tx["k"]
         if k == "sc":
             return gen_scalar(tx["np"], rng)
         if k == "str":
             if like is not None:
-                slot = (len(like) + 1 + 7) // 8
+                slot = (len(like) + 1 + 7) // 8       # same box: the stored size of the string does not change
                 cands = [s for s in STRINGS if (len(s.encode()) + 1 + 7) // 8 == slot]
+                if self.shorter_strings and _top and rng.random() < 0.3:     # a shorter text fits as well (leaf assignment only)
+                    cands = [s for s in STRINGS if (len(s.encode()) + 1 + 7) // 8 <= slot]
                 s = rng.choice(cands) if cands else bytes(like).decode()
             else:
                 s = rng.choice(STRINGS)
             return list(s.encode("utf8")), s
         if k == "struct":
-            vs = [self.value(f, b, None if like is None else like[i]) for i, f in enumerate(tx["f"])]
+            vs = [self.value(f, b, None if like is None else like[i], False, _inarr) for i, f in enumerate(tx["f"])]
             return [v[0] for v in vs], {self.ns.fname(i): v[1] for i, v in enumerate(vs)}
         if k == "arr":
             sh = list(like["sh"]) if like is not None else self.shape(tx)
             n = int(np.prod(sh))
-            vs = [self.value(tx["it"], b, None if like is None else like["it"][i]) for i in range(n)]
+            vs = [self.value(tx["it"], b, None if like is None else like["it"][i], False, True) for i in range(n)]
             inp = {"sh": sh, "it": [v[0] for v in vs]}
             it = tx["it"]
-            if it["k"] == "sc" and self.np_forms and rng.random() < 0.5:
+            if it["k"] == "sc" and self.np_forms and not _inarr and rng.random() < 0.5:     # (a list of ndarrays is not a promised input form)
                 a = np.array([np.frombuffer(bytes(v[0]), dtype=it["np"].lower())[0] for v in vs], dtype=it["np"].lower()).reshape(sh)
                 form = rng.choice(["C", "F", "strided"]) if len(sh) > 1 or n > 1 else "C"
                 if form == "F":
@@ -216,7 +226,7 @@ class Gen:
             return {"r": "foreign", "tid": ch[1], "src": list(ch[2])}, ch[3]
         tid = ch[1]
         tt = tx["to"] if k == "ref" else tx["of"][tid]
-        v, py = self.value(tt, b)
+        v, py = self.value(tt, b, None, False, _inarr)
         if k == "uref":
             py = (self.ns.cls(tt).__name__, py)
         return {"r": "new", "tid": tid, "v": v}, py
